@@ -29,6 +29,9 @@ type params struct {
 	AfterFull bool     // block after the second reorg: full alphabet (else: none or the continuation's kind)
 	Reader    bool     // explore a concurrent reader holding a pooled connection while the first reorg runs
 	NestedMax int      // a second reorg is explored only for continuations of at most this length (0: any)
+	// Sparse: the syncer skipped blocks without events — the stored blocks are numbered 2, 4, 6, ... and the reorg points
+	// include the numbers in between, which have no row in the store's block table
+	Sparse bool
 }
 
 var bCache = map[string][]sk.Obs{}
@@ -50,7 +53,11 @@ func units(tier string) []mc.Unit {
 				if len(h) > 0 {
 					if p := mk(h); p != nil {
 						p.Store, p.History = store, append([]string{}, h...)
-						us = append(us, mc.Unit{Name: fmt.Sprintf("%s:%s", store, strings.Join(h, ",")), Params: *p})
+						name := fmt.Sprintf("%s:%s", store, strings.Join(h, ","))
+						if p.Sparse {
+							name += "/sparse"
+						}
+						us = append(us, mc.Unit{Name: name, Params: *p})
 					}
 				}
 				if len(h) == maxN {
@@ -61,6 +68,15 @@ func units(tier string) []mc.Unit {
 				}
 			}
 			rec(nil)
+		}
+		sparse := func(maxN int, al []string, mk func(h []string) *params) {
+			add(maxN, al, func(h []string) *params {
+				p := mk(h)
+				if p != nil {
+					p.Sparse = true
+				}
+				return p
+			})
 		}
 		if store == sk.GER { // cheap store: deeper histories
 			n := 3
@@ -73,6 +89,7 @@ func units(tier string) []mc.Unit {
 				}
 				return &params{MaxCont: 1, ContKinds: full, Restart: true, Nested: len(h) <= 2, AfterFull: true, Reader: len(h) <= 2}
 			})
+			sparse(n-1, full, func(h []string) *params { return &params{MaxCont: 1, ContKinds: full, Restart: true} })
 			continue
 		}
 		if tier == "quick" {
@@ -82,6 +99,7 @@ func units(tier string) []mc.Unit {
 				}
 				return &params{MaxCont: 1, ContKinds: full, Restart: true}
 			})
+			sparse(2, reduced[store], func(h []string) *params { return &params{MaxCont: 1, ContKinds: reduced[store], Sparse: true} })
 			add(3, reduced[store], func(h []string) *params {
 				if len(h) < 3 {
 					return nil
@@ -104,6 +122,9 @@ func units(tier string) []mc.Unit {
 				}
 				return &params{MaxCont: 1, ContKinds: reduced[store]}
 			})
+			sparse(3, reduced[store], func(h []string) *params {
+				return &params{MaxCont: 1, ContKinds: reduced[store], Sparse: true, Restart: len(h) <= 2}
+			})
 		}
 	}
 	return us
@@ -116,8 +137,8 @@ func b2i(b bool) int {
 	return 0
 }
 
-func feed(c *mc.Ctx, n *sk.Node, chain *sk.Chain, kind string, salt int, who string) bool {
-	blk := chain.Next(kind, salt)
+func feed(c *mc.Ctx, n *sk.Node, chain *sk.Chain, kind string, salt int, who string, step uint64) bool {
+	blk := chain.NextAt(chain.Tip()+step, kind, salt)
 	if err := n.Process(blk); err != nil {
 		c.Failf(fmt.Sprintf("%s/ProcessBlock/error-on-valid-block", n.Kind), "%s: ProcessBlock(%d kind %s salt %d) failed: %v", who, blk.Num, kind, salt, err)
 		return false
@@ -133,12 +154,16 @@ func run(c *mc.Ctx, u mc.Unit) {
 	defer a.Close()
 	chain := sk.NewChain(p.Store)
 	al := p.ContKinds
+	step := uint64(1)
+	if p.Sparse {
+		step = 2
+	}
 	for _, k := range p.History {
-		if !feed(c, a, chain, k, 0, "A") {
+		if !feed(c, a, chain, k, 0, "A", step) {
 			return
 		}
 	}
-	n := len(p.History)
+	n := len(p.History) * int(step)
 	removalNotUndone := false
 	reorg := func(b uint64) bool {
 		if chain.RemovalInDroppedTargetsKept(b) {
@@ -194,7 +219,7 @@ func run(c *mc.Ctx, u mc.Unit) {
 	lastKind := ""
 	for i := 0; i < contLen; i++ {
 		lastKind = al[c.Choose(len(al), "continuation-kind")]
-		if !feed(c, a, chain, lastKind, 1, "A") {
+		if !feed(c, a, chain, lastKind, 1, "A", step) {
 			return
 		}
 	}
@@ -215,7 +240,7 @@ func run(c *mc.Ctx, u mc.Unit) {
 			if p.AfterFull {
 				k = al[c.Choose(len(al), "continuation-kind")]
 			}
-			if !feed(c, a, chain, k, 2, "A") {
+			if !feed(c, a, chain, k, 2, "A", step) {
 				return
 			}
 		}
@@ -326,12 +351,14 @@ func main() {
 			if tier == "thorough" {
 				return map[string]any{"alphabets": sk.BlockKinds, "reduced_alphabets_for_4_block_histories": reduced,
 					"bridge_l1info": "histories <=3 blocks over the full alphabet (1 block: continuation <=2, restart, nested reorg with any block after it; 2 blocks: continuation <=2, restart, nested; 3 blocks: continuation <=1, restart) + all 4-block histories over the reduced alphabet with continuation <=1",
-					"ger":           "histories <=5 blocks, continuation <=1 (<=2 for histories <=3), restart, nested reorg for histories <=3", "reorg_points": "1..N+2"}
+					"ger":           "histories <=5 blocks, continuation <=1 (<=2 for histories <=3), restart, nested reorg for histories <=3", "reorg_points": "1..N+2",
+					"sparse": "histories <=3 blocks (reduced alphabet; GER: <=4, full) stored at block numbers 2,4,..: reorg points 1..2N+2 include numbers without a row in the block table; continuation <=1, restart"}
 			}
 			return map[string]any{"alphabets": sk.BlockKinds,
 				"reduced_alphabets_for_3_block_histories": reduced,
 				"bridge_l1info": "histories <=2 blocks over the full alphabet (1 block: continuation <=2, restart, nested reorg after 1-block continuations; 2 blocks: continuation <=1, restart) + all 3-block histories over the reduced alphabet with continuation none or one two-leaf block",
-				"ger":           "histories <=3 blocks, continuation <=1, restart, nested reorg for histories <=2", "reorg_points": "1..N+2"}
+				"ger":           "histories <=3 blocks, continuation <=1, restart, nested reorg for histories <=2", "reorg_points": "1..N+2",
+				"sparse": "histories <=2 blocks (reduced alphabet; GER: full) stored at block numbers 2,4,..: reorg points 1..2N+2 include numbers without a row in the block table; continuation <=1"}
 		},
 	})
 }
